@@ -50,7 +50,7 @@ func selftest(p *propDef) int {
 				res[i].res[k] = r
 			}
 			// replay fidelity: the recorded decision list, fed back, must reproduce the same event log
-			if len(s.Tasks) > 1 && res[i].res[0] != nil {
+			if multiTask(s) && res[i].res[0] != nil {
 				rs := clone(s)
 				rs.Decisions = res[i].res[0].Decisions
 				if rs.Decisions == nil {
@@ -110,4 +110,17 @@ func canon(r *spec.Result) string {
 	c.RunMs, c.OracleMs = 0, 0
 	b, _ := json.Marshal(&c)
 	return string(b)
+}
+
+// multiTask: the run has several callers under the scheduler (C09 task scripts, or C10 lookups assigned to callers).
+func multiTask(s *spec.Spec) bool {
+	if len(s.Tasks) > 1 {
+		return true
+	}
+	for _, lk := range s.Lookups {
+		if lk.Task > 0 {
+			return true
+		}
+	}
+	return false
 }
